@@ -448,3 +448,17 @@ func paramsFor(sp *HarnessSpec, tier string) map[string]int {
 	}
 	return out
 }
+
+func harnessDirHasFiles(pkg string) bool {
+	rel := strings.TrimPrefix(strings.TrimPrefix(pkg, modPath), "/")
+	ents, err := os.ReadDir(filepath.Join(verifDir, "harness", rel))
+	if err != nil {
+		return false
+	}
+	for _, en := range ents {
+		if strings.HasSuffix(en.Name(), ".go") {
+			return true
+		}
+	}
+	return false
+}
